@@ -55,7 +55,7 @@ impl Check for AutoCommitCheck {
         "C09"
     }
     fn budget(&self, tier: &str) -> usize {
-        if tier == "thorough" { 40_000 } else { 1500 }
+        if tier == "thorough" { 200_000 } else { 8_000 }
     }
     fn gen_case(&self, seed: u64, _idx: usize, _tier: &str, _avoid: &[String]) -> Case {
         let mut rng = Rng::new(seed, "workload");
